@@ -69,6 +69,7 @@ type Out struct {
 	Foreign     int64              `json:"foreign_hook_calls,omitempty"`
 	SharedMut   string             `json:"shared_buffer_mutated,omitempty"`
 	IdleBytes   string             `json:"idle_device_delivered,omitempty"` // hex: bytes read by goroutines that are not tasks
+	IdleChunks  []string           `json:"idle_device_reads,omitempty"`     // hex per Read call of those goroutines
 }
 
 func die(code int, f string, a ...interface{}) {
@@ -178,6 +179,9 @@ func Main(install func(devs []*dev.Dev), idle *dev.Safe) {
 		out.Outcomes, out.Delivered, out.Reads = outcomes, delivered, reads
 		if b := idle.DeliveredCopy(); len(b) > 0 {
 			out.IdleBytes = hex.EncodeToString(b)
+			for _, c := range idle.Chunks(4096) {
+				out.IdleChunks = append(out.IdleChunks, hex.EncodeToString(c))
+			}
 		}
 		for i := range sharedCopy {
 			if string(sharedCopy[i]) != string(worker.SharedBufs[i]) {
